@@ -531,6 +531,11 @@ fn load_entry(entry: u32, bytes: &[u8], is_rten_ext: bool, env: &Env) -> Result<
     }
 }
 
+pub static T_PUT: std::sync::atomic::AtomicU64 = std::sync::atomic::AtomicU64::new(0);
+pub static T_LOAD: std::sync::atomic::AtomicU64 = std::sync::atomic::AtomicU64::new(0);
+pub static T_EXAMINE: std::sync::atomic::AtomicU64 = std::sync::atomic::AtomicU64::new(0);
+pub static T_DROP: std::sync::atomic::AtomicU64 = std::sync::atomic::AtomicU64::new(0);
+
 /// Execute the entry points selected by `mask` on `bytes`.
 pub fn exec_case(bytes: &[u8], mask: u32, rten_ext: bool, env: &Env, region: Option<&Region>, xo: &ExecOpts) -> Vec<EntryOut> {
     let mut outs = Vec::new();
@@ -538,7 +543,9 @@ pub fn exec_case(bytes: &[u8], mask: u32, rten_ext: bool, env: &Env, region: Opt
     let needs_file = mask & (entry_bit(E_FILE_OPT) | entry_bit(E_FILE_NOOPT) | entry_bit(E_MMAP)) != 0;
     let mut file_ok = true;
     if needs_file {
+        let t = std::time::Instant::now();
         file_ok = if rten_ext { env.rten.put(bytes) } else { env.onnx.put(bytes) };
+        T_PUT.fetch_add(t.elapsed().as_micros() as u64, std::sync::atomic::Ordering::Relaxed);
     }
     for e in ALL_ENTRIES {
         if mask & entry_bit(e) == 0 {
@@ -560,6 +567,7 @@ pub fn exec_case(bytes: &[u8], mask: u32, rten_ext: bool, env: &Env, region: Opt
         let t0 = std::time::Instant::now();
         let (r, max_alloc) = allocmon::measure(|| catch_panic(|| load_entry(e, bytes, rten_ext, env)));
         out.micros = t0.elapsed().as_micros() as u64;
+        T_LOAD.fetch_add(out.micros, std::sync::atomic::Ordering::Relaxed);
         out.max_alloc = max_alloc as u64;
         match r {
             Err(p) => {
@@ -574,11 +582,15 @@ pub fn exec_case(bytes: &[u8], mask: u32, rten_ext: bool, env: &Env, region: Opt
             }
             Ok(Ok(model)) => {
                 out.status = "ok".into();
+                let t = std::time::Instant::now();
                 examine_model(&model, e, &mut out, env, region, xo);
+                T_EXAMINE.fetch_add(t.elapsed().as_micros() as u64, std::sync::atomic::Ordering::Relaxed);
                 if let Some(r) = region {
                     r.set_stage(ST_DROP, e);
                 }
+                let t = std::time::Instant::now();
                 drop(model);
+                T_DROP.fetch_add(t.elapsed().as_micros() as u64, std::sync::atomic::Ordering::Relaxed);
             }
         }
         if let Some(r) = region {
